@@ -7,18 +7,63 @@
     download time: [OpenFile p], [HttpGet u] or [Reject k].  [run w st ops]
     gives the status and the events of every step of a history. *)
 From Coq Require Import List NArith.
-From AGH Require Import Base.Run Base.Bytes Base.PathClean Base.Glob Model.SafeFS Proofs.SafeFS.
+From AGH Require Import Base.Run Base.Bytes Base.PathClean Base.Glob Model.SafeFS Proofs.GlobCase Proofs.SafeFS.
 Import ListNotations.
 
 (** In every world, from every starting state (configured, planted or reached
     by an earlier history) and along every history of add / set-url / refresh:
     a file is opened only for an absolute location, it is the cleaned
-    location, and some configured pattern matches it. *)
+    location, and some configured pattern matches it -- byte for byte, letter
+    case included ([safe_exact]): for a matching pattern without classes and
+    escapes the path is aligned with the pattern, every literal pattern byte
+    standing for exactly that byte; if that pattern has no upper-case letter,
+    no upper-case letter of the path lies in a literal position; and a pattern
+    of literal bytes only admits the path equal to it. *)
 Theorem C17_open_implies_safe : forall w st ops s evs loc p,
   In (s, evs) (snd (run w st ops)) -> In (loc, OpenFile p) evs ->
-  is_abs loc = true /\ p = clean loc /\ safe (w_pats w) p.
+  is_abs loc = true /\ p = clean loc /\ safe (w_pats w) p /\ safe_exact (w_pats w) p.
 Proof. exact open_implies_safe. Qed.
 Print Assumptions C17_open_implies_safe.
+
+(** Letter case is significant in the matcher itself.  A pattern without
+    classes and escapes and without upper-case letters: in the alignment of
+    any matching name, every piece a literal pattern byte stands for is free
+    of upper-case letters (such a letter can only lie under a [*] or [?]). *)
+Theorem C17_match_case_exact : forall pat name,
+  plain_pattern pat = true -> glob_match pat name = GOk true -> no_upper pat = true ->
+  exists pieces, aligned pat name pieces /\
+    Forall (fun pc => is_lit (fst pc) = true -> no_upper (snd pc) = true) pieces.
+Proof. exact glob_case_exact. Qed.
+Print Assumptions C17_match_case_exact.
+
+Theorem C17_match_aligned : forall pat name,
+  plain_pattern pat = true -> glob_match pat name = GOk true ->
+  exists pieces, aligned pat name pieces.
+Proof. exact glob_match_aligned. Qed.
+Print Assumptions C17_match_aligned.
+
+(** A pattern of literal bytes admits exactly itself ("exact.list" never
+    admits "Exact.list"). *)
+Theorem C17_literal_pattern_exact : forall pat name,
+  forallb is_lit pat = true -> glob_match pat name = GOk true -> name = pat.
+Proof. exact glob_literal_exact. Qed.
+Print Assumptions C17_literal_pattern_exact.
+
+(** With literal lower-case patterns only, no opened path has an upper-case
+    letter, whatever the spelling of the location. *)
+Theorem C17_literal_lower_patterns_no_upper : forall pats loc p,
+  Forall (fun g => forallb is_lit g = true /\ no_upper g = true) pats ->
+  reader pats loc = OpenFile p -> no_upper p = true.
+Proof. exact literal_lower_patterns_no_upper. Qed.
+Print Assumptions C17_literal_lower_patterns_no_upper.
+
+(** Matching after lower-casing both sides (red-team change C17-F) is another
+    relation: it admits a path the configured pattern does not match. *)
+Theorem C17_lowered_match_differs :
+  glob_match (lower ex_pat_ext) (lower ex_name_dir) = GOk true /\
+  glob_match ex_pat_ext ex_name_dir = GOk false.
+Proof. exact lowered_match_differs. Qed.
+Print Assumptions C17_lowered_match_differs.
 
 (** The same at the level of the single decision. *)
 Theorem C17_reader_open : forall pats loc p,
@@ -83,6 +128,18 @@ Theorem C17_recheck_at_refresh : forall w st white st' s evs f,
   forall src, In (f_url f, src) evs -> exists k, src = Reject k.
 Proof. exact recheck_at_refresh. Qed.
 Print Assumptions C17_recheck_at_refresh.
+
+(** The periodic path (the timer of updatesLoop calling
+    periodicallyRefreshFilters: both arrays, not forced) is one of the steps
+    of the histories above; on its own: every location it looks at is decided
+    by the same [reader], it looks only at entries that are due, and an
+    absolute, unsafe location is rejected. *)
+Theorem C17_recheck_at_periodic : forall w st due st' s evs loc src,
+  periodic w st due = (st', s, evs) -> In (loc, src) evs ->
+  src = reader (w_pats w) loc /\ In loc due /\
+  (is_abs loc = true -> ~ safe (w_pats w) (clean loc) -> exists k, src = Reject k).
+Proof. exact recheck_at_periodic. Qed.
+Print Assumptions C17_recheck_at_periodic.
 
 (** Cleaning: idempotent, keeps absolute paths absolute. *)
 Theorem C17_clean_idempotent : forall p, clean (clean p) = clean p.
